@@ -327,6 +327,13 @@ fn build_positive(g: &mut Gen, cx: &Cx, switched_off: &mut Vec<&'static str>, br
     (id > 0).then_some(p)
 }
 
+fn dbg(s: &str) {
+    use std::io::Write;
+    if let Ok(mut f) = std::fs::OpenOptions::new().create(true).append(true).open("/tmp/c17/dbg.txt") {
+        let _ = writeln!(f, "{s}");
+    }
+}
+
 fn build_negative(g: &mut Gen, cx: &Cx, switched_off: &mut Vec<&'static str>) -> Option<(Prog, Prog)> {
     let base = build_positive(g, cx, switched_off, true)?;
     let id = base.all_probes().len() as u32;
@@ -338,6 +345,12 @@ fn build_negative(g: &mut Gen, cx: &Cx, switched_off: &mut Vec<&'static str>) ->
         if let Some(q) = break_one(g, &p, id, cx, switched_off) {
             return Some((p, q));
         }
+        if std::env::var("C17_DEBUG").is_ok() {
+            dbg(&format!("DEBUG break failed:\n{}", render(&p)));
+        }
+    }
+    if std::env::var("C17_DEBUG").is_ok() {
+        dbg(&format!("DEBUG no culprit:\n{}", render(&base)));
     }
     None
 }
